@@ -296,4 +296,30 @@ Proof.
   split; [exact (sim_calls _ _ S)|]. split; [exact Hc|]. split; [lia|].
   rewrite (sim_cb _ _ S), Hcbk. reflexivity.
 Qed.
+
+(* C17 on the generated run: one history entry per executed generation (none without keep_history), each the snapshot
+   of its generation's evaluated population *)
+Corollary src_fit_history (self0 : EA) (gs0 : list G) (n : nat) :
+  sim self0 (init_state G P) -> (0 < n)%nat -> length gs0 = n -> (forall st, length (var st) = n) -> 1 <= ea_iters G P self0 ->
+  ea_n_jobs G P self0 <= 1 -> ea_aim G P self0 <> NegInf -> fst (ea_on_generation G P self0) = true ->
+  (forall m, ea_no_increase_num G P self0 = Some m -> 0 <= m) ->
+  (forall s st, sim s st -> newpop s = var st) ->
+  let self := py_EvolutionaryAlgorithm_fit G P (fun s => set_pop_g s gs0) (fun s => set_pop_g s (newpop s)) from_pop self0 in
+  let st := fit G P g2p (nf_of self0) Generational (ea_elitism G P self0) (ea_keep_history G P self0)
+                (abs_aim (ea_aim G P self0)) (abs_nin (ea_no_increase_num G P self0)) var (Z.to_nat (ea_iters G P self0)) gs0 in
+  ea_stats G P self = map entry_of (hist st) /\
+  (ea_keep_history G P self0 = true -> length (ea_stats G P self) = gens st) /\
+  (ea_keep_history G P self0 = false -> ea_stats G P self = []).
+Proof.
+  intros S0 Hn Hl Hvl Hit Hnj Haim Hcb Hnin Hvar. cbv zeta.
+  assert (Hgs : gs0 <> []) by (destruct gs0; [simpl in Hl; lia|discriminate]).
+  assert (Hne : forall st, var st <> []) by (intros st E; specialize (Hvl st); rewrite E in Hvl; simpl in Hvl; lia).
+  pose proof (code_fit self0 gs0 S0 Hgs Hnj Haim Hcb Hnin Hvar Hne) as S.
+  destruct (EALoopProofs2.history_complete G P g2p (nf_of self0) Generational (ea_elitism G P self0) (ea_keep_history G P self0)
+              (abs_aim (ea_aim G P self0)) (abs_nin (ea_no_increase_num G P self0)) var n Hn Hvl (Z.to_nat (ea_iters G P self0)) gs0
+              ltac:(lia) Hl) as (Hk1 & Hk2).
+  split; [exact (sim_hist _ _ S)|]. split.
+  - intro Hk. rewrite (sim_hist _ _ S), map_length. auto.
+  - intro Hk. rewrite (sim_hist _ _ S), (Hk2 Hk). reflexivity.
+Qed.
 End Step.
